@@ -11,8 +11,19 @@ use std::thread::JoinHandle;
 
 #[derive(Clone, Debug, PartialEq)]
 pub enum Op { OpenFd(u64), OpenLock(u64), GiveUp(u64), Open(u64), Create(u64), Put(u64, u64), Commit(u64), Vacuum(u64), Drop(u64), Kill(u64), Doctor(u64),
+    /// model op Touch: an operation that writes in place and must not touch lock state
+    Touch(u64, TouchKind), EnableVec(u64),
+    /// model op Put, with a payload of the given size (log growth inside put)
+    BigPut(u64, u64, usize),
+    /// not model ops (oracle-only histories): Memvid::downgrade_to_shared; a put on the downgraded handle (ensure_writable upgrades)
+    Downgrade(u64),
+    /// not a model op: from four child processes at once try Memvid::open, open_read_only, doctor and a non-blocking flock
+    Probe,
     /// not a model op: repeat the next would-be open from a child process and compare (cross-process check)
     ChildOpen }
+
+#[derive(Clone, Debug, PartialEq)]
+pub enum TouchKind { Presize(u64), BeginBatch, EndBatch, Ticket, EnableLex }
 
 impl Op {
     fn term(&self) -> Option<T> {
@@ -21,7 +32,9 @@ impl Op {
             Op::OpenFd(w) => T::C("OpenFd", vec![n(w)]), Op::OpenLock(w) => T::C("OpenLock", vec![n(w)]), Op::GiveUp(w) => T::C("GiveUp", vec![n(w)]),
             Op::Open(w) => T::C("Open", vec![n(w)]), Op::Create(w) => T::C("Create", vec![n(w)]), Op::Put(w, t) => T::C("Put", vec![n(w), n(t)]),
             Op::Commit(w) => T::C("Commit", vec![n(w)]), Op::Vacuum(w) => T::C("Vacuum", vec![n(w)]), Op::Drop(w) => T::C("Drop", vec![n(w)]),
-            Op::Kill(w) => T::C("Kill", vec![n(w)]), Op::Doctor(w) => T::C("Doctor", vec![n(w)]), Op::ChildOpen => return None,
+            Op::Kill(w) => T::C("Kill", vec![n(w)]), Op::Doctor(w) => T::C("Doctor", vec![n(w)]),
+            Op::Touch(w, _) => T::C("Touch", vec![n(w)]), Op::EnableVec(w) => T::C("EnableVec", vec![n(w)]), Op::BigPut(w, t, _) => T::C("Put", vec![n(w), n(t)]),
+            Op::ChildOpen | Op::Probe | Op::Downgrade(_) => return None,
         })
     }
 }
@@ -39,6 +52,19 @@ fn put(m: &mut Memvid, k: u64) -> Result<u64, String> {
     o.auto_tag = false; o.extract_dates = false; o.extract_triplets = false; o.instant_index = false;
     m.put_bytes_with_options(format!("payload number {} of the lock histories", k).as_bytes(), o).map_err(|e| e.to_string())
 }
+fn put_sized(m: &mut Memvid, k: u64, size: usize) -> Result<u64, String> {
+    let mut o = PutOptions::default();
+    o.uri = Some(format!("mv2://u/{}", k)); o.timestamp = Some(1_700_000_000 + k as i64);
+    o.auto_tag = false; o.extract_dates = false; o.extract_triplets = false; o.instant_index = false;
+    let mut r = Rng::new(k ^ 0xB16); let mut b = vec![0xFFu8, 0xFE]; b.extend(r.bytes(size.saturating_sub(2)));   // never UTF-8, incompressible
+    m.put_bytes_with_options(&b, o).map_err(|e| e.to_string())
+}
+/// self-test of the check (MV_C17_SEED_GUARD=1 only): what a temporary `FileLock::acquire(&self.file, path)` guard inside
+/// shift_data_for_wal_growth does at the syscall level -- LOCK_EX on a dup of the handle's lock description, LOCK_UN when dropped
+fn seeded_guard(m: &Memvid, p: &Path) {
+    if std::env::var("MV_C17_SEED_GUARD").is_err() { return; }
+    if let Ok(f) = m.lock_handle().clone_handle() { if let Ok(g) = FileLock::acquire(&f, p) { drop(g); } }
+}
 fn tags(m: &Memvid) -> Vec<u64> {
     (0..m.frame_count() as u64).map(|i| m.frame_by_id(i).ok().and_then(|f| f.uri).and_then(|u| u.strip_prefix("mv2://u/").and_then(|s| s.parse().ok())).unwrap_or(999_999)).collect()
 }
@@ -52,22 +78,68 @@ fn doctor(p: &Path) -> (bool, bool, String) {
     }
 }
 
-/// child process: `mvharness C17-child <path>` tries Memvid::open and reports; exits without commit
+/// child process: `mvharness C17-child <path> <mode>`: open | ro | doctor | try; reports whether it was let in; exits without commit
 pub fn child(args: &[String]) {
     let p = PathBuf::from(&args[0]);
-    match Memvid::open(&p) {
-        Ok(m) => { println!("C17CHILD OK {:?}", tags(&m)); memvid_core::verif_hooks::drop_without_commit(m); }
-        Err(e) => println!("C17CHILD ERR {}", e),
+    let mode = args.get(1).map(|s| s.as_str()).unwrap_or("open");
+    match mode {
+        "ro" => match Memvid::open_read_only(&p) { Ok(m) => { println!("C17CHILD OK {:?}", tags(&m)); memvid_core::verif_hooks::drop_without_commit(m); } Err(e) => println!("C17CHILD ERR {}", e) },
+        "doctor" => { let (got, _, what) = doctor(&p); println!("C17CHILD {} {}", if got { "OK" } else { "ERR" }, what); }
+        "try" => { let f = std::fs::OpenOptions::new().read(true).write(true).open(&p).expect("open"); match FileLock::try_acquire(&f, &p) { Ok(Some(_)) => println!("C17CHILD OK try"), _ => println!("C17CHILD ERR try") } }
+        _ => match Memvid::open(&p) { Ok(m) => { println!("C17CHILD OK {:?}", tags(&m)); memvid_core::verif_hooks::drop_without_commit(m); } Err(e) => println!("C17CHILD ERR {}", e) },
     }
     std::process::exit(0);
 }
-fn spawn_child_open(p: &Path) -> JoinHandle<Option<bool>> {
+fn spawn_child(p: &Path, mode: &'static str) -> JoinHandle<Option<bool>> {
     let exe = std::env::current_exe().expect("exe"); let p = p.to_path_buf();
     std::thread::spawn(move || {
-        let out = std::process::Command::new(exe).arg("C17-child").arg(&p).env("RUST_BACKTRACE", "0").output().ok()?;
+        let out = std::process::Command::new(exe).arg("C17-child").arg(&p).arg(mode).env("RUST_BACKTRACE", "0").output().ok()?;
         let s = String::from_utf8_lossy(&out.stdout).to_string();
         if s.contains("C17CHILD OK") { Some(true) } else if s.contains("C17CHILD ERR") { Some(false) } else { None }
     })
+}
+fn spawn_child_open(p: &Path) -> JoinHandle<Option<bool>> { spawn_child(p, "open") }
+
+/// writer child for the strace check: every operation of a writer's life, a marker (unlink of C17MARK-<op>) before each
+pub fn writer_child(args: &[String]) {
+    let p = PathBuf::from(&args[0]); let dir = p.parent().unwrap().to_path_buf();
+    let mark = |name: &str| { let f = dir.join(format!("C17MARK-{}", name)); let _ = std::fs::write(&f, b"x"); let _ = std::fs::remove_file(&f); };
+    mark("create"); let mut m = Memvid::create(&p).expect("create");
+    mark("presize"); seeded_guard(&m, &p); m.begin_batch(memvid_core::types::PutManyOpts { wal_pre_size_bytes: 200_000, ..Default::default() }).expect("begin_batch");
+    mark("end_batch"); m.end_batch().expect("end_batch");
+    mark("enable_vec"); let _ = m.enable_vec();
+    mark("enable_lex"); let _ = m.enable_lex();
+    mark("apply_ticket"); let _ = m.apply_ticket(memvid_core::types::Ticket::new("verif", 1));
+    mark("put"); let _ = put(&mut m, 1);
+    mark("grow_in_put"); let _ = m.begin_batch(Default::default()); let _ = put_sized(&mut m, 2, 150_000); let _ = put_sized(&mut m, 3, 150_000); let _ = m.end_batch();
+    mark("commit"); let _ = m.commit();
+    mark("put2"); let _ = put_sized(&mut m, 4, 600_000);
+    mark("commit2"); let _ = m.commit();
+    mark("vacuum"); let _ = m.vacuum();
+    mark("drop"); drop(m);
+    std::process::exit(0);
+}
+
+/// strace a writer process: no flock(LOCK_UN) on the memory file between the grant and the drop of the handle
+fn strace_writer() -> Case {
+    let dir = tempfile::tempdir().expect("tempdir"); let p = dir.path().join("m.mv2"); let tr = dir.path().join("trace.txt");
+    let exe = std::env::current_exe().expect("exe");
+    let st = std::process::Command::new("strace").arg("-f").arg("-qq").arg("-y").arg("-o").arg(&tr).arg("-e").arg("trace=flock,unlink,unlinkat")
+        .arg(exe).arg("C17-writer").arg(&p).env("RUST_BACKTRACE", "0").stdout(std::process::Stdio::null()).stderr(std::process::Stdio::null()).status();
+    let trace = std::fs::read_to_string(&tr).unwrap_or_default();
+    let mut tags = vec!["strace-writer".to_string()]; let mut viol = None; let mut cur = "start".to_string(); let mut locks = 0; let mut unlocks_at_drop = 0; let mut marks = 0;
+    for l in trace.lines() {
+        if let Some(i) = l.find("C17MARK-") { if l.contains("unlink") { cur = l[i + 8..].chars().take_while(|c| c.is_ascii_alphanumeric() || *c == '_').collect(); marks += 1; } continue; }
+        if l.contains("flock(") && l.contains("m.mv2") {
+            if l.contains("LOCK_UN") {
+                if cur == "drop" { unlocks_at_drop += 1; }
+                else if viol.is_none() { viol = Some(format!("unlock-in-critical-section: a live writer unlocked its own open file description during `{}`: {}", cur, l.trim())); }
+            } else if l.contains("LOCK_EX") && l.trim_end().ends_with("= 0") { locks += 1; if cur != "create" { tags.push(format!("extra-lock-call-during-{}", cur)); } }
+        }
+    }
+    if st.is_err() || marks < 10 { tags.push("strace-unavailable".into()); viol = None; }
+    else { tags.push(format!("flock-grants:{}", locks)); tags.push(format!("unlocks-at-drop:{}", unlocks_at_drop)); }
+    Case { input: T::L(vec![]), output: T::Tup(vec![T::N(locks), T::N(unlocks_at_drop)]), violation: viol, nontrivial: marks >= 10, tags, key: "strace-writer".into() }
 }
 
 struct Obs { ok: bool, dir_changed: bool, held: bool, live: Vec<(u64, bool)> }
@@ -84,7 +156,7 @@ pub fn run_history(name: &str, ops: &[Op]) -> Outcome {
     let mut acked: Vec<u64> = vec![];                 // tags whose commit was acknowledged
     let mut put_by: Vec<Vec<u64>> = vec![vec![]; 8];  // tags put (Ok) by each handle and not yet committed
     let mut stale_seen = false; let mut create_truncated = false; let mut two_writers = false; let mut refused = 0usize;
-    let mut child_next = false; let mut dead = false; let mut env_error = false; let mut waiter_ino = [0u64; 8]; let mut waiter_start = [std::time::Instant::now(); 8]; let mut last_release = std::time::Instant::now();
+    let mut child_next = false; let mut dead = false; let mut env_error = false; let mut waiter_ino = [0u64; 8]; let mut waiter_start = [std::time::Instant::now(); 8]; let mut last_release = std::time::Instant::now(); let mut ticket_seq = 10i64;
     let set_viol = |v: &mut Option<String>, s: String| { if v.is_none() { *v = Some(s); } };
     for op in ops {
         if dead { break; }
@@ -147,6 +219,44 @@ pub fn run_history(name: &str, ops: &[Op]) -> Outcome {
                     set_viol(&mut viol, format!("{}: Memvid::doctor got write access ({}) while handle(s) {:?} are alive (history {:?})", if stale { "inode-replaced-under-lock" } else { "two-writers-same-inode" }, what, live_before, done));
                 }
             }
+            Op::Touch(w, kind) => match hs[*w as usize].as_mut() {
+                Some(m) => { let r = match kind {
+                        TouchKind::Presize(b) => { seeded_guard(m, &p); m.begin_batch(memvid_core::types::PutManyOpts { wal_pre_size_bytes: *b, ..Default::default() }).and_then(|_| m.end_batch()) }
+                        TouchKind::BeginBatch => m.begin_batch(Default::default()),
+                        TouchKind::EndBatch => m.end_batch(),
+                        TouchKind::Ticket => { ticket_seq += 1; m.apply_ticket(memvid_core::types::Ticket::new("verif", ticket_seq)) }
+                        TouchKind::EnableLex => m.enable_lex(),
+                    };
+                    if let Err(e) = r { ok = false; tagv.push(format!("touch-error:{:?}:{}", kind, e)); if e.to_string().contains("Tantivy") { env_error = true; } }
+                    tagv.push(format!("touch:{}", match kind { TouchKind::Presize(_) => "presize", TouchKind::BeginBatch => "begin_batch", TouchKind::EndBatch => "end_batch", TouchKind::Ticket => "apply_ticket", TouchKind::EnableLex => "enable_lex" })); }
+                None => ok = false },
+            Op::EnableVec(w) => match hs[*w as usize].as_mut() { Some(m) => { if let Err(e) = m.enable_vec() { ok = false; tagv.push(format!("touch-error:enable_vec:{}", e)); } tagv.push("touch:enable_vec".into()); } None => ok = false },
+            Op::BigPut(w, t, size) => match hs[*w as usize].as_mut() {
+                Some(m) => { let before = memvid_core::verif_hooks::wal_stats(m).0;
+                    match put_sized(m, *t, *size) { Ok(_) => put_by[*w as usize].push(*t), Err(e) => { ok = false; if e.contains("Tantivy") { env_error = true; } tagv.push(format!("put-error:{}", e)); } }
+                    if memvid_core::verif_hooks::wal_stats(m).0 != before { tagv.push("log-grew-inside-put".into()); seeded_guard(m, &p); } }
+                None => ok = false },
+            Op::Downgrade(w) => { if let Some(m) = hs[*w as usize].as_mut() { match m.downgrade_to_shared() { Ok(()) => tagv.push(format!("downgrade:read_only={}", m.is_read_only())), Err(e) => tagv.push(format!("downgrade-error:{}", e)) } } }
+            Op::Probe => {
+                // who holds a lock on the inode the path names right now
+                let holders: Vec<u64> = live_before.iter().cloned().filter(|v| hs[*v as usize].as_ref().map(|m| ino_lock(m) == ino_before).unwrap_or(false)).collect();
+                let writer_holds = holders.iter().any(|v| hs[*v as usize].as_ref().map(|m| !m.is_read_only()).unwrap_or(false));
+                let kinds = ["open", "ro", "doctor", "try"];
+                let ths: Vec<JoinHandle<Option<bool>>> = kinds.iter().map(|k| spawn_child(&p, k)).collect();
+                for (k, th) in kinds.iter().zip(ths) {
+                    let res = th.join().ok().flatten();
+                    tagv.push(format!("probe-{}:{}", k, match res { Some(true) => "granted", Some(false) => "refused", None => "no-answer" }));
+                    if res == Some(false) { refused += 1; }
+                    if res == Some(true) && !live_before.is_empty() {
+                        let exclusive = *k != "ro";
+                        if holders.is_empty() { stale_seen = true; if exclusive { two_writers = true; set_viol(&mut viol, format!("inode-replaced-under-lock: a second process's {} was granted while handle(s) {:?} are alive, their locks on a replaced inode (history {:?})", k, live_before, done)); } }
+                        else if exclusive { two_writers = true; set_viol(&mut viol, format!("two-writers-same-inode: a second process's {} was granted while handle(s) {:?} are alive and hold their lock descriptor on the inode the path names (history {:?})", k, holders, done)); }
+                        else if writer_holds { set_viol(&mut viol, format!("lock-released-while-writer-alive: a second process's open_read_only (shared lock) was granted while writable handle(s) {:?} are alive with their lock descriptor on the path's inode: the exclusive lock is gone (history {:?})", holders, done)); }
+                        if exclusive { dead = true; }   // the second writer replays / rewrites the file: nothing after this is comparable
+                    }
+                }
+                continue;
+            }
             Op::ChildOpen => {}
         }
         let ino_after = ino_path(&p);
@@ -202,6 +312,14 @@ fn scripted() -> Vec<(&'static str, Vec<Op>)> {
         ("three", vec![Create(0), Commit(0), Open(1), Put(1, 5), Commit(1), Open(2), Put(2, 6), Commit(2), Put(0, 7), Commit(0), Drop(1), Drop(2)]),
         ("failed-create", vec![Create(0), Put(0, 7), Put(0, 8), Create(1)]),
         ("waiter-kill", vec![Create(0), Put(0, 1), OpenFd(1), OpenLock(1), Kill(0), OpenLock(1), Put(1, 2), Commit(1), Doctor(5), Open(2)]),
+        // lock state before the first writer's first commit: every operation that rewrites the file in place, then a second process knocks
+        ("presize", vec![Create(0), Touch(0, TouchKind::Presize(262_144)), Probe, Open(1), Put(0, 1), Commit(0)]),
+        ("batch-growth", vec![Create(0), Touch(0, TouchKind::BeginBatch), BigPut(0, 1, 40_000), BigPut(0, 2, 40_000), Touch(0, TouchKind::EndBatch), Probe, Commit(0), Open(1)]),
+        ("big-put", vec![Create(0), BigPut(0, 1, 70_000), Probe, Put(0, 2), Open(1)]),
+        ("enable-vec", vec![Create(0), EnableVec(0), Touch(0, TouchKind::EnableLex), Probe, Drop(0), Open(1)]),
+        ("ticket", vec![Create(0), Touch(0, TouchKind::Ticket), Put(0, 1), Probe, Kill(0), Open(1)]),
+        ("reopen-presize", vec![Create(0), Put(0, 1), Commit(0), Drop(0), Open(0), Touch(0, TouchKind::Presize(262_144)), Probe, Put(0, 2), Touch(0, TouchKind::BeginBatch), BigPut(0, 3, 300_000), Touch(0, TouchKind::EndBatch), Probe]),
+        ("oracle-downgrade", vec![Create(0), Put(0, 1), Commit(0), Drop(0), Open(0), Downgrade(0), Probe, Put(0, 2), Probe]),
         ("replay-on-open", vec![Create(0), Put(0, 1), Kill(0), Open(1), ChildOpen, Open(2), Put(1, 2), Commit(1), Put(2, 3), Commit(2)]),
     ]
 }
@@ -213,11 +331,11 @@ fn random_history(r: &mut Rng) -> Vec<Op> {
     // shadow state: live handle -> (its lock is on the inode the path names, dirty); path_log: the path's file has log records
     let mut live: Vec<(u64, bool, bool)> = vec![(0, true, false)]; let mut noput: Vec<u64> = vec![]; let mut closed_doctor = false;
     let mut path_log = false; let mut first_commit_pending = true;
-    let mut next_tag = 10; let mut budget_refused = 1; let mut next_id = 1u64;
+    let mut next_tag = 10; let mut budget_refused = 1; let mut next_id = 1u64; let mut presize = 65_536u64;
     let n = r.range(5, 11);
     for _ in 0..n {
         let path_locked = live.iter().any(|(_, on, _)| *on);
-        let k = r.below(12);
+        let k = r.below(14);
         match k {
             0..=2 if !live.is_empty() => { let i = r.below(live.len() as u64) as usize; if noput.contains(&live[i].0) { continue; } ops.push(Put(live[i].0, next_tag)); next_tag += 1; live[i].2 = true; path_log = true; }
             3..=4 if !live.is_empty() => { let i = r.below(live.len() as u64) as usize; let w = live[i].0; let vac = r.chance(1, 4) && live.len() == 1; // vacuum's in-place phase on an inode shared with another live handle is not modelled ops.push(if vac { Vacuum(w) } else { Commit(w) });
@@ -227,6 +345,9 @@ fn random_history(r: &mut Rng) -> Vec<Op> {
                 if path_locked { if budget_refused == 0 { continue; } budget_refused -= 1; ops.push(Open(next_id)); }
                 else { ops.push(Open(next_id)); if path_log { for l in live.iter_mut() { l.1 = false; } live.push((next_id, false, false)); path_log = false; } else { live.push((next_id, true, false)); } }
                 next_id += 1; }
+            12 if !live.is_empty() => { let i = r.below(live.len() as u64) as usize; let w = live[i].0; if noput.contains(&w) { continue; }
+                match r.below(4) { 0 => { presize *= 2; ops.push(Touch(w, TouchKind::Presize(presize))); } 1 => ops.push(Touch(w, TouchKind::Ticket)), 2 => ops.push(Touch(w, TouchKind::EnableLex)), _ => { ops.push(Touch(w, TouchKind::BeginBatch)); ops.push(Touch(w, TouchKind::EndBatch)); } } }
+            13 if !live.is_empty() => { let i = r.below(live.len() as u64) as usize; let w = live[i].0; if noput.contains(&w) { continue; } ops.push(EnableVec(w)); live[i].2 = true; }
             8 if !live.is_empty() => { let i = r.below(live.len() as u64) as usize; let (w, _, d) = live.remove(i); ops.push(Drop(w)); if d { for l in live.iter_mut() { l.1 = false; } path_log = false; } }
             9 if !live.is_empty() => { let i = r.below(live.len() as u64) as usize;
                 // a created, never committed memory killed with an empty log: the next open flushes the index into the log in place (not modelled)
@@ -256,13 +377,17 @@ pub fn run(seed: u64, n: usize, w: &mut dyn std::io::Write) {
     let mut r = Rng::new(seed ^ 0xC17);
     let mut jobs: Vec<(String, Vec<Op>)> = scripted().into_iter().map(|(n, o)| (n.to_string(), o)).collect();
     if let Ok(only) = std::env::var("MV_C17_ONLY") { jobs.retain(|j| j.0 == only); }
-    for i in 0..n.saturating_sub(jobs.len()) { jobs.push((format!("random{}", i), random_history(&mut r))); }
+    // corpus seed: the histories that caught a seeded lock release (log pre-sizing / growth before the first commit) run first and alone
+    let corpus = seed == 17001;
+    if corpus { jobs.retain(|j| j.0 == "presize" || j.0 == "batch-growth"); }
+    if !corpus { for i in 0..n.saturating_sub(jobs.len()) { jobs.push((format!("random{}", i), random_history(&mut r))); } }
     // all histories in parallel (a refused open sleeps 10 s), 12 at a time (more concurrent Tantivy writers than that fail to start in this sandbox)
     let mut outs: Vec<Outcome> = vec![];
     for chunk in jobs.chunks(12) {
-        let hs: Vec<JoinHandle<Outcome>> = chunk.iter().cloned().map(|(name, ops)| std::thread::spawn(move || { let mut o = run_history(&name, &ops); let mut tries = 0; while o.env_error && tries < 3 { tries += 1; o = run_history(&name, &ops); o.tags.push("retried-after-environment-error".into()); }
+        let hs: Vec<JoinHandle<Outcome>> = chunk.iter().cloned().map(|(name, ops)| std::thread::spawn(move || { let mut o = run_history(&name, &ops); let mut tries = 0; while o.env_error && tries < 3 { tries += 1; eprintln!("C17 retry {} of {}: {:?}", tries, name, o.tags.iter().filter(|t| t.contains("error")).collect::<Vec<_>>()); o = run_history(&name, &ops); o.tags.push("retried-after-environment-error".into()); }
             if o.env_error { o.stream = "oracle"; o.violation = None; o.tags.push("environment-error-not-compared".into()); } o })).collect();
         for h in hs { match h.join() { Ok(o) => outs.push(o), Err(_) => eprintln!("history thread panicked") } }
     }
     for o in &outs { emit_outcome(w, o); }
+    if !corpus && std::env::var("MV_C17_ONLY").is_err() { emit(w, "strace", &strace_writer()); }
 }
